@@ -67,16 +67,20 @@ end F
 
 /-! ### the running best -/
 
-/-- `(score_best, pos_best)` after feeding a list of `(pos, score)` steps: strict `>` replaces -/
+theorem F.beq_eq {a b : F} (h : F.beq a b = true) : a = b ∧ a.isNan = false := by
+  cases a <;> cases b <;> simp_all [F.beq, F.isNan]
+
+/-- `(score_best, pos_best)` after feeding a list of `(pos, score)` steps -/
 def bestOf : F × Option Pos → List StepRec → F × Option Pos
   | b, [] => b
-  | b, t :: rest => bestOf (if F.gt t.score b.1 then (t.score, some t.pos) else b) rest
+  | b, t :: rest => bestOf (if accepts b.1 b.2 t.score then (t.score, some t.pos) else b) rest
 
 theorem pbarUpdate_best (c : Call) (p : PBar) (s : F) (pos : Pos) (i : Nat) :
     ((pbarUpdate c p s pos i).scoreBest, (pbarUpdate c p s pos i).posBest) =
-      (if F.gt s p.scoreBest then (s, some pos) else (p.scoreBest, p.posBest)) := by
+      (if accepts p.scoreBest p.posBest s then (s, some pos) else (p.scoreBest, p.posBest)) := by
   unfold pbarUpdate PBar.update0 PBar.update1 PBar.new2best
-  by_cases h : F.gt s p.scoreBest = true <;> by_cases hl : c.lvl1 = true <;> simp [h, hl]
+  by_cases h : accepts p.scoreBest p.posBest s = true <;> by_cases hl : c.lvl1 = true <;>
+    by_cases hg : F.gt s p.scoreBest = true <;> simp [h, hl, hg]
 
 /-- the two progress-bar classes keep the same best: the fold's best does not depend on `lvl1` -/
 theorem pbarFold_best (c : Call) (p : PBar) (i : Nat) (tr : List StepRec) :
@@ -87,10 +91,24 @@ theorem pbarFold_best (c : Call) (p : PBar) (i : Nat) (tr : List StepRec) :
     simp only [pbarFold, bestOf]
     rw [ih, pbarUpdate_best]
 
-theorem bestOf_append (b : F × Option Pos) (l1 l2 : List StepRec) : bestOf b (l1 ++ l2) = bestOf (bestOf b l1) l2 := by
-  induction l1 generalizing b with
-  | nil => rfl
-  | cons t rest ih => simp only [List.cons_append, bestOf]; exact ih _
+/-- an accepted score is not nan and not below the current best -/
+theorem accepts_le {b : F} {bp : Option Pos} {s : F} (hb : b.isNan = false) (h : accepts b bp s = true) :
+    s.isNan = false ∧ F.le b s = true := by
+  unfold accepts at h
+  simp only [Bool.or_eq_true, Bool.and_eq_true] at h
+  rcases h with h | ⟨_, h⟩
+  · exact ⟨F.not_nan_of_lt_right h, F.le_of_lt h⟩
+  · obtain ⟨e, hn⟩ := F.beq_eq h
+    subst e
+    exact ⟨hn, F.le_refl hn⟩
+
+/-- a rejected non-nan score is not above the current best -/
+theorem not_accepts_le {b : F} {bp : Option Pos} {s : F} (hb : b.isNan = false) (hs : s.isNan = false)
+    (h : accepts b bp s = false) : F.le s b = true := by
+  unfold accepts at h
+  simp only [Bool.or_eq_false_iff] at h
+  have hgt' : F.lt b s = false := by simpa [F.gt] using h.1
+  exact F.le_of_not_lt hb hs hgt'
 
 theorem bestOf_notNan (b : F × Option Pos) (l : List StepRec) (hb : b.1.isNan = false) : (bestOf b l).1.isNan = false := by
   induction l generalizing b with
@@ -99,7 +117,7 @@ theorem bestOf_notNan (b : F × Option Pos) (l : List StepRec) (hb : b.1.isNan =
     simp only [bestOf]
     apply ih
     split
-    · rename_i h; exact F.not_nan_of_lt_right h
+    · rename_i h; exact (accepts_le hb h).1
     · exact hb
 
 /-- the best never decreases -/
@@ -110,8 +128,8 @@ theorem bestOf_ge_start (b : F × Option Pos) (l : List StepRec) (hb : b.1.isNan
     simp only [bestOf]
     split
     · rename_i h
-      have h1 : F.le b.1 t.score = true := F.le_of_lt h
-      exact F.le_trans h1 (ih (t.score, some t.pos) (F.not_nan_of_lt_right h))
+      obtain ⟨hn, hle⟩ := accepts_le hb h
+      exact F.le_trans hle (ih (t.score, some t.pos) hn)
     · exact ih b hb
 
 /-- every non-nan score of the list is dominated by the final best -/
@@ -125,14 +143,12 @@ theorem bestOf_ge_mem (b : F × Option Pos) (l : List StepRec) (hb : b.1.isNan =
     rcases List.mem_cons.mp ht with h | h
     · subst h
       split
-      · rename_i hgt
-        exact bestOf_ge_start (t.score, some t.pos) rest hnn
-      · rename_i hgt
-        have hgt' : F.lt b.1 t.score = false := by simpa [F.gt] using hgt
-        have : F.le t.score b.1 = true := F.le_of_not_lt hb hnn hgt'
-        exact F.le_trans this (bestOf_ge_start b rest hb)
+      · exact bestOf_ge_start (t.score, some t.pos) rest hnn
+      · rename_i hacc
+        have hacc' : accepts b.1 b.2 t.score = false := by simpa using hacc
+        exact F.le_trans (not_accepts_le hb hnn hacc') (bestOf_ge_start b rest hb)
     · split
-      · rename_i hgt; exact ih (u.score, some u.pos) (F.not_nan_of_lt_right hgt) t h hnn
+      · rename_i hacc; exact ih (u.score, some u.pos) (accepts_le hb hacc).1 t h hnn
       · exact ih b hb t h hnn
 
 /-- the final best is the start value or one of the scores, paired with its own position -/
@@ -157,8 +173,9 @@ theorem bestOf_ge_iff (b : F × Option Pos) (l : List StepRec) (hb : b.1.isNan =
   | nil => simp [bestOf]
   | cons u rest ih =>
     simp only [bestOf]
-    by_cases hgt : F.gt u.score b.1 = true
-    · rw [if_pos hgt, ih (u.score, some u.pos) (F.not_nan_of_lt_right hgt)]
+    by_cases hacc : accepts b.1 b.2 u.score = true
+    · obtain ⟨hn, hle⟩ := accepts_le hb hacc
+      rw [if_pos hacc, ih (u.score, some u.pos) hn]
       constructor
       · rintro (h | ⟨t, ht, h⟩)
         · right; exact ⟨u, by simp, h⟩
@@ -166,11 +183,12 @@ theorem bestOf_ge_iff (b : F × Option Pos) (l : List StepRec) (hb : b.1.isNan =
       · rintro (h | ⟨t, ht, h⟩)
         · left
           simp only [F.ge] at h ⊢
-          exact F.le_trans h (F.le_of_lt hgt)
+          exact F.le_trans h hle
         · rcases List.mem_cons.mp ht with e | e
           · subst e; left; exact h
           · right; exact ⟨t, e, h⟩
-    · rw [if_neg hgt, ih b hb]
+    · rw [if_neg hacc, ih b hb]
+      have hacc' : accepts b.1 b.2 u.score = false := by simpa using hacc
       constructor
       · rintro (h | ⟨t, ht, h⟩)
         · left; exact h
@@ -182,37 +200,67 @@ theorem bestOf_ge_iff (b : F × Option Pos) (l : List StepRec) (hb : b.1.isNan =
             left
             simp only [F.ge] at h ⊢
             have hnn : t.score.isNan = false := F.not_nan_of_le_right h
-            have hgt' : F.lt b.1 t.score = false := by simpa [F.gt] using hgt
-            exact F.le_trans h (F.le_of_not_lt hb hnn hgt')
+            exact F.le_trans h (not_accepts_le hb hnn hacc')
           · right; exact ⟨t, e, h⟩
 
+/-- once a position is recorded only a strictly greater score replaces it -/
+theorem accepts_some {b : F} {p : Pos} {s : F} : accepts b (some p) s = F.gt s b := by
+  simp [accepts]
+
+theorem F.beq_self {a : F} (h : a.isNan = false) : F.beq a a = true := by
+  cases a <;> simp_all [F.beq, F.isNan]
+
+/-- how the final best `t` relates to the start pair `b`: strictly greater, or equal while no position was recorded -/
+def Rel (b : F × Option Pos) (t : StepRec) : Prop := F.lt b.1 t.score = true ∨ (b.2 = none ∧ t.score = b.1)
+
+theorem accepts_rel {b : F × Option Pos} {t : StepRec} (h : accepts b.1 b.2 t.score = true) : Rel b t := by
+  unfold accepts at h
+  simp only [Bool.or_eq_true, Bool.and_eq_true] at h
+  rcases h with h | ⟨hn, hb⟩
+  · left; exact h
+  · right
+    refine ⟨?_, (F.beq_eq hb).1⟩
+    cases hb2 : b.2 with
+    | none => rfl
+    | some p => simp [hb2] at hn
+
 /-- the best pair is the start pair, or the FIRST step attaining the maximum: every earlier score is strictly smaller
-    (or nan), and it strictly exceeds the start value -/
+    (or nan) -/
 theorem bestOf_first (b : F × Option Pos) (hb : b.1.isNan = false) (l : List StepRec) :
     bestOf b l = b ∨
-    ∃ l1 t l2, l = l1 ++ t :: l2 ∧ bestOf b l = (t.score, some t.pos) ∧ F.lt b.1 t.score = true ∧
+    ∃ l1 t l2, l = l1 ++ t :: l2 ∧ bestOf b l = (t.score, some t.pos) ∧ Rel b t ∧
       ∀ u ∈ l1, F.lt u.score t.score = true ∨ u.score.isNan = true := by
   induction l generalizing b with
   | nil => left; rfl
   | cons u rest ih =>
     simp only [bestOf]
-    by_cases hgt : F.gt u.score b.1 = true
-    · rw [if_pos hgt]
-      have hun : u.score.isNan = false := F.not_nan_of_lt_right hgt
-      rcases ih (u.score, some u.pos) hun with h | ⟨l1, t, l2, hl, hbest, hlt, hall⟩
+    by_cases hacc : accepts b.1 b.2 u.score = true
+    · rw [if_pos hacc]
+      obtain ⟨hun, _⟩ := accepts_le hb hacc
+      have hrel := accepts_rel hacc
+      rcases ih (u.score, some u.pos) hun with h | ⟨l1, t, l2, hl, hbest, hrel', hall⟩
       · right
-        exact ⟨[], u, rest, rfl, h, hgt, by intro w hw; simp at hw⟩
+        exact ⟨[], u, rest, rfl, h, hrel, by intro w hw; simp at hw⟩
       · right
-        refine ⟨u :: l1, t, l2, by simp [hl], hbest, F.lt_trans hgt hlt, ?_⟩
+        have hstrict : F.lt u.score t.score = true := by
+          rcases hrel' with h1 | ⟨h1, _⟩
+          · exact h1
+          · simp at h1
+        have hrel2 : Rel b t := by
+          rcases hrel with h1 | ⟨_, h2⟩
+          · left; exact F.lt_trans h1 hstrict
+          · left; rw [← h2]; exact hstrict
+        refine ⟨u :: l1, t, l2, by simp [hl], hbest, hrel2, ?_⟩
         intro w hw
         rcases List.mem_cons.mp hw with e | e
-        · subst e; left; exact hlt
+        · subst e; left; exact hstrict
         · exact hall w e
-    · rw [if_neg hgt]
-      rcases ih b hb with h | ⟨l1, t, l2, hl, hbest, hlt, hall⟩
+    · rw [if_neg hacc]
+      have hacc' : accepts b.1 b.2 u.score = false := by simpa using hacc
+      rcases ih b hb with h | ⟨l1, t, l2, hl, hbest, hrel, hall⟩
       · left; exact h
       · right
-        refine ⟨u :: l1, t, l2, by simp [hl], hbest, hlt, ?_⟩
+        refine ⟨u :: l1, t, l2, by simp [hl], hbest, hrel, ?_⟩
         intro w hw
         rcases List.mem_cons.mp hw with e | e
         · subst e
@@ -220,9 +268,54 @@ theorem bestOf_first (b : F × Option Pos) (hb : b.1.isNan = false) (l : List St
           · right; exact hn
           · left
             have hn' : w.score.isNan = false := by simpa using hn
-            have hgt' : F.lt b.1 w.score = false := by simpa [F.gt] using hgt
-            have hle : F.le w.score b.1 = true := F.le_of_not_lt hb hn' hgt'
-            exact F.lt_of_le_of_lt hle hlt
+            have hle : F.le w.score b.1 = true := not_accepts_le hb hn' hacc'
+            rcases hrel with h1 | ⟨h1, h2⟩
+            · exact F.lt_of_le_of_lt hle h1
+            · -- no position recorded and the final best equals the start value: `w` was rejected, so it is not equal
+              rw [h2]
+              rcases F.lt_or_eq_of_le hle with h3 | h3
+              · exact h3
+              · exfalso
+                unfold accepts at hacc'
+                simp only [Bool.or_eq_false_iff, Bool.and_eq_false_iff] at hacc'
+                rcases hacc'.2 with h4 | h4
+                · rw [h1] at h4; simp at h4
+                · rw [h3, F.beq_self hb] at h4; simp at h4
         · exact hall w e
+
+theorem bestOf_snd_some (b : F × Option Pos) (l : List StepRec) (h : b.2.isSome = true) : (bestOf b l).2.isSome = true := by
+  induction l generalizing b with
+  | nil => exact h
+  | cons u rest ih =>
+    simp only [bestOf]
+    split
+    · exact ih _ rfl
+    · exact ih b h
+
+/-- the best pair stays at the initial `(-inf, None)` only if every score was nan -/
+theorem bestOf_initial_iff_all_nan (l : List StepRec) (h : bestOf (F.ninf, none) l = (F.ninf, none)) :
+    ∀ t ∈ l, t.score.isNan = true := by
+  induction l with
+  | nil => intro t ht; simp at ht
+  | cons u rest ih =>
+    simp only [bestOf] at h
+    by_cases hacc : accepts F.ninf none u.score = true
+    · rw [if_pos hacc] at h
+      have := bestOf_snd_some (u.score, some u.pos) rest rfl
+      rw [h] at this; simp at this
+    · rw [if_neg hacc] at h
+      have hacc' : accepts F.ninf none u.score = false := by simpa using hacc
+      intro t ht
+      rcases List.mem_cons.mp ht with e | e
+      · subst e
+        apply Classical.byContradiction
+        intro hn
+        have hn' : t.score.isNan = false := by simpa using hn
+        have hle : F.le t.score F.ninf = true := not_accepts_le (b := F.ninf) rfl hn' hacc'
+        have heq : t.score = F.ninf := F.le_antisymm hle (F.ninf_le hn')
+        unfold accepts at hacc'
+        rw [heq] at hacc'
+        simp [F.beq, F.gt, F.lt] at hacc'
+      · exact ih h t e
 
 end GFO
